@@ -365,9 +365,11 @@ func formatPostingWithOpts(posting *ast.Posting, alignment AlignmentInfo, commod
 		writeAmountWithSign(&sb, &posting.BalanceAssertion.Amount, commodityFormats)
 	}
 
-	if posting.Comment != "" {
-		sb.WriteString("  ; ")
-		sb.WriteString(posting.Comment)
+	// The comment text starts right after the semicolon and keeps its own leading blank:
+	// writing "; " in front of it would add one more blank on every run.
+	if comment := strings.TrimRight(posting.Comment, " \t\r"); comment != "" {
+		sb.WriteString("  ;")
+		sb.WriteString(comment)
 	}
 
 	return sb.String()
